@@ -4,6 +4,7 @@
    not depend on which select arms exist), every population of senders and every schedule. *)
 From FMP Require Import Base.Bytes Base.Lts Model.Events Model.Skeleton Model.Props Model.Writer
      Proofs.WriterProofs Proofs.SkeletonProofs.
+From FMP Require Import Model.CodecCfg Proofs.CodecCfgProofs.
 Open Scope Z_scope.
 
 Theorem C13_notifier_exact : forall sk ss ls st,
@@ -52,6 +53,10 @@ Example ex_hyps : fresh_ok ex_ss = true /\ all_announce ex_ss = true. Proof. vm_
 Example ex_rejects : accepts notifier_step None [ANotifier 1; AWrite (mkFI KCall 2 0 true)] = false.
 Proof. vm_compute. reflexivity. Qed.
 
+(* the model gives calls, notifications and replies the blocking hand-off (which watches the context) and cancellations the asynchronous one; so does the source (regenerated order census of dispatch.go and request.go) *)
+Theorem C13_senders_use_the_modelled_hand_off : cdf_blocking_senders codecfacts_now = true /\ cdf_cancel_async codecfacts_now = true.
+Proof. exact codec_blocking_senders. Qed.
+
 Print Assumptions C13_notifier_exact.
 Print Assumptions C13_seqnos_distinct.
 Print Assumptions C13_cancel_never_precedes_call.
@@ -59,3 +64,4 @@ Print Assumptions C13_order_kept.
 Print Assumptions C13_all.
 Print Assumptions C13_abandoned_never_written.
 Print Assumptions C13_generated_ok.
+Print Assumptions C13_senders_use_the_modelled_hand_off.
